@@ -140,4 +140,79 @@ MUTANTS = [
      "edits": [(K, '        for (index, key) in self.keys().iter().enumerate() {\n            write!(f, "{}", key)?;\n            if index + 1 < self.keys().len() {\n                write!(f, " ")?;\n            }\n        }\n', '        let mut keys = self.keys().iter();\n        if let Some(first) = keys.next() {\n            write!(f, "{}", first)?;\n        }\n        for key in keys.skip(1) {\n            write!(f, " ")?;\n            write!(f, "{}", key)?;\n        }\n')]},
     {"id": 'C18-chord-display-helper-other-separator', "prop": "C18", "expect": 'chord-separator',
      "edits": [(K, '        for (index, key) in self.keys().iter().enumerate() {\n            write!(f, "{}", key)?;\n            if index + 1 < self.keys().len() {\n                write!(f, " ")?;\n            }\n        }\n', '        fn write_gap(f: &mut fmt::Formatter<\'_>, needed: bool) -> fmt::Result {\n            if needed {\n                write!(f, "+")?;\n            }\n            Ok(())\n        }\n        for (index, key) in self.keys().iter().enumerate() {\n            write_gap(f, index > 0)?;\n            write!(f, "{}", key)?;\n        }\n')]},
+    # ---------------- robustness round K6: modifier table in a helper, split_first printer, tuple-match single character ----------------
+]
+_MODS_OLD = ('            match attr.to_lowercase().as_ref() {\n                "alt" => key_mod |= KeyMod::ALT,\n                "ctrl" => key_mod |= KeyMod::CTRL,\n'
+             '                "shift" => key_mod |= KeyMod::SHIFT,\n                "press" => key_mod |= KeyMod::PRESS,\n                "super" => key_mod |= KeyMod::SUPER,\n'
+             '                "hyper" => key_mod |= KeyMod::HYPER,\n                "meta" => key_mod |= KeyMod::META,\n                "capslock" => key_mod |= KeyMod::CAPSLOCK,\n'
+             '                name => match name.parse::<KeyName>() {\n')
+_CHORD_STRUCT = '#[derive(Clone, PartialEq, Eq, Ord, PartialOrd, Hash)]\npub struct KeyChord {'
+
+
+def _helper(ret_wrapped, alt="KeyMod::ALT", extra=""):
+    rows = [("shift", "KeyMod::SHIFT"), ("alt", alt), ("ctrl", "KeyMod::CTRL"), ("super", "KeyMod::SUPER"), ("hyper", "KeyMod::HYPER"),
+            ("meta", "KeyMod::META"), ("capslock", "KeyMod::CAPSLOCK"), ("press", "KeyMod::PRESS")]
+    if ret_wrapped:
+        body = "    Some(match attr {\n" + "".join('        "%s" => %s,\n' % r for r in rows) + extra + "        _ => return None,\n    })\n"
+    else:
+        body = "    match attr {\n" + "".join('        "%s" => Some(%s),\n' % r for r in rows) + extra + "        _ => None,\n    }\n"
+    return "fn modifier_by_name(attr: &str) -> Option<KeyMod> {\n" + body + "}\n\n" + _CHORD_STRUCT
+
+
+_MATCH_CALL = ('            let attr = attr.to_lowercase();\n            match modifier_by_name(&attr) {\n                Some(flag) => key_mod |= flag,\n'
+               '                None => match attr.parse::<KeyName>() {\n')
+_NAME_TAIL = ('                    Ok(name) => {\n                        if key_name.replace(name).is_some() {\n                            key_name.take();\n                            break;\n                        }\n                    }\n'
+              '                    _ => break,\n                },\n            }\n')
+_IFLET_LOOP = ('            let lowered = attr.to_lowercase();\n            if let Some(flag) = modifier_by_name(lowered.as_str()) {\n                key_mod = key_mod | flag;\n                continue;\n            }\n'
+               '            match lowered.parse::<KeyName>() {\n                Ok(name) => {\n                    if key_name.replace(name).is_some() {\n                        key_name.take();\n                        break;\n                    }\n                }\n'
+               '                _ => break,\n            }\n')
+_CHORD_LOOP = ('        for (index, key) in self.keys().iter().enumerate() {\n            write!(f, "{}", key)?;\n            if index + 1 < self.keys().len() {\n                write!(f, " ")?;\n            }\n        }\n')
+_ONE_CHAR_OLD = ("            cs if cs.chars().count() == 1 => {\n                let c = cs.chars().next().unwrap();\n                match c {\n"
+                 "                    c @ 'a'..='z' | c @ '0'..='9' => KeyName::Char(c),\n"
+                 "                    '`' | '-' | '=' | '[' | ']' | '\\\\' | ';' | ',' | '.' | '/' => KeyName::Char(c),\n"
+                 '                    _ => return Err(Error::ParseError("KeyName", string.to_string())),\n                }\n            }\n'
+                 '            _ => return Err(Error::ParseError("KeyName", string.to_string())),\n')
+
+
+def _one_char(first="'a'..='z' | '0'..='9'", second_tail="None"):
+    return ("            cs => {\n                let mut chars = cs.chars();\n                match (chars.next(), chars.next()) {\n"
+            "                    (Some(c @ (%s)), None) => KeyName::Char(c),\n"
+            "                    (Some(c @ ('`' | '-' | '=' | '[' | ']' | '\\\\' | ';' | ',' | '.' | '/')), %s) => KeyName::Char(c),\n"
+            '                    _ => return Err(Error::ParseError("KeyName", string.to_string())),\n                }\n            }\n') % (first, second_tail)
+
+
+MUTANTS += [
+    {"id": "C18-benign-modifier-helper-some-match", "prop": "C18", "benign": True,
+     "edits": [(K, _MODS_OLD, _MATCH_CALL), (K, _CHORD_STRUCT, _helper(True))]},
+    {"id": "C18-benign-modifier-helper-arms-some", "prop": "C18", "benign": True,
+     "edits": [(K, _MODS_OLD, _MATCH_CALL), (K, _CHORD_STRUCT, _helper(False))]},
+    {"id": "C18-benign-modifier-helper-if-let-continue", "prop": "C18", "benign": True,
+     "edits": [(K, _MODS_OLD + _NAME_TAIL, _IFLET_LOOP), (K, _CHORD_STRUCT, _helper(False))]},
+    {"id": "C18-modifier-helper-alt-sets-ctrl", "prop": "C18", "expect": "MOD-ROUNDTRIP",
+     "edits": [(K, _MODS_OLD, _MATCH_CALL), (K, _CHORD_STRUCT, _helper(True, alt="KeyMod::CTRL"))]},
+    {"id": "C18-modifier-helper-shadows-key-name", "prop": "C18", "expect": "key-name-is-modifier",
+     "edits": [(K, _MODS_OLD, _MATCH_CALL), (K, _CHORD_STRUCT, _helper(True, extra='        "tab" => KeyMod::CTRL,\n'))]},
+    {"id": "C18-modifier-helper-flag-dropped", "prop": "C18", "expect": "MOD-ROUNDTRIP/ANCHOR",
+     "edits": [(K, _MODS_OLD, _MATCH_CALL.replace("Some(flag) => key_mod |= flag", "Some(_flag) => key_mod |= KeyMod::EMPTY")), (K, _CHORD_STRUCT, _helper(True))]},
+    {"id": "C18-benign-chord-display-split-first", "prop": "C18", "benign": True,
+     "edits": [(K, _CHORD_LOOP, '        let Some((first, rest)) = self.keys().split_first() else {\n            return Ok(());\n        };\n        write!(f, "{}", first)?;\n'
+                '        for key in rest {\n            write!(f, " ")?;\n            write!(f, "{}", key)?;\n        }\n')]},
+    {"id": "C18-benign-chord-display-split-last", "prop": "C18", "benign": True,
+     "edits": [(K, _CHORD_LOOP, '        if let Some((last, init)) = self.keys().split_last() {\n            for key in init.iter() {\n                write!(f, "{}", key)?;\n                f.write_str(" ")?;\n            }\n'
+                '            write!(f, "{}", last)?;\n        }\n')]},
+    {"id": "C18-chord-display-split-first-rest-first", "prop": "C18", "expect": "SERDE-CHAIN/KeyChord::Display/iteration",
+     "edits": [(K, _CHORD_LOOP, '        let Some((first, rest)) = self.keys().split_first() else {\n            return Ok(());\n        };\n'
+                '        for key in rest {\n            write!(f, "{}", key)?;\n            write!(f, " ")?;\n        }\n        write!(f, "{}", first)?;\n')]},
+    {"id": "C18-chord-display-split-first-drops-first", "prop": "C18", "expect": "SEPARATORS/ANCHOR/KeyChord",
+     "edits": [(K, _CHORD_LOOP, '        let Some((_first, rest)) = self.keys().split_first() else {\n            return Ok(());\n        };\n'
+                '        for (index, key) in rest.iter().enumerate() {\n            if index > 0 {\n                write!(f, " ")?;\n            }\n            write!(f, "{}", key)?;\n        }\n')]},
+    {"id": "C18-benign-one-char-tuple-match", "prop": "C18", "benign": True, "edits": [(K, _ONE_CHAR_OLD, _one_char())]},
+    {"id": "C18-one-char-tuple-match-extra-char", "prop": "C18", "expect": "NAME-ROUNDTRIP/KeyName::from_str/row:char:",
+     "edits": [(K, _ONE_CHAR_OLD, _one_char(first="'a'..='z' | '0'..='9' | '*'"))]},
+    {"id": "C18-one-char-tuple-match-accepts-longer", "prop": "C18", "expect": "NAME-ROUNDTRIP/ANCHOR/KeyName::from_str",
+     "edits": [(K, _ONE_CHAR_OLD, _one_char(second_tail="_"))]},
+]
+MUTANTS += [
+    {"id": "C18-unwrap-in-free-modifier-helper", "prop": "C18", "expect": "PANIC-SITE/modifier_by_name",
+     "edits": [(K, _MODS_OLD, _MATCH_CALL), (K, _CHORD_STRUCT, _helper(True).replace('    Some(match attr {', '    let attr = attr.strip_prefix("mod-").unwrap();\n    Some(match attr {'))]},
 ]
